@@ -459,6 +459,53 @@ def _lost_wrappers(spec, obj):
     return out
 
 
+def unit_merge_keeps_marks(ctx):
+    """Public restructuring calls (Chain.merge_chains, Transformed.merge_transforms) must not drop wrapper nodes: a sub-chain frozen with
+    NonTrainable and used as a Chain element is still frozen afterwards (same NonTrainable count, same function).  Seeded change C12e."""
+    import jax
+    import jax.numpy as jnp
+    from flowjax import wrappers as W
+    from flowjax.bijections import Affine, Chain, Exp, Invert
+    from flowjax.distributions import Normal, Transformed
+
+    u = ctx.unit("merge-keeps-marks", "Chain([..., NonTrainable(Chain[...]), ...]).merge_chains() and Transformed(...).merge_transforms(): NonTrainable "
+                                      "nodes survive and the function is unchanged")
+    rng = ctx.rng
+
+    def n_marks(o):
+        return sum(isinstance(l, W.NonTrainable) for l in jax.tree_util.tree_leaves(o, is_leaf=lambda x: isinstance(x, W.NonTrainable)))
+
+    for rep in range(4 if ctx.quick else 20):
+        d = int(rng.integers(1, 4))
+        aff = lambda: Affine(jnp.asarray(rng.normal(0, 1, d)), jnp.asarray(np.exp(rng.normal(0, 0.4, d))))  # noqa: E731
+        inner = Chain([aff(), Chain([aff(), Exp((d,))]) if rep % 2 else aff()])
+        outer = Chain([aff(), W.NonTrainable(inner), Invert(aff())] if rep % 3 else [W.NonTrainable(inner), aff()])
+        x = jnp.asarray(rng.normal(0, 1, d))
+        errs = []
+        u.count((rep, d), tag="merge_chains")
+        try:
+            merged = outer.merge_chains()
+            if n_marks(merged) < n_marks(outer):
+                errs.append(f"merge_chains() dropped NonTrainable marks ({n_marks(outer)} -> {n_marks(merged)}): the frozen sub-chain is trainable afterwards")
+            if not np.allclose(np.asarray(merged.transform(x)), np.asarray(outer.transform(x)), rtol=1e-12, atol=1e-12):
+                errs.append("merge_chains() changed transform")
+        except Exception as e:  # noqa: BLE001
+            errs.append(f"merge_chains() raised {type(e).__name__}: {str(e)[:80]}")
+        u.count((rep, d, "mt"), tag="merge_transforms")
+        try:
+            dist = Transformed(Transformed(Normal(jnp.zeros(d)), W.NonTrainable(inner)), aff())
+            mt = dist.merge_transforms()
+            if n_marks(mt) < n_marks(dist):
+                errs.append(f"merge_transforms() dropped NonTrainable marks ({n_marks(dist)} -> {n_marks(mt)})")
+            if not np.allclose(float(mt.log_prob(x + 3.0)), float(dist.log_prob(x + 3.0)), rtol=1e-10, atol=1e-12):
+                errs.append("merge_transforms() changed log_prob")
+        except Exception as e:  # noqa: BLE001
+            ctx.notes.append(f"merge-keeps-marks: Transformed over a NonTrainable bijection not constructible here ({type(e).__name__}); merge_chains part still checked")
+        if errs:
+            ctx.violation(sig="merge-keeps-marks", what="; ".join(errs), case=dict(unit="merge-keeps-marks", rep=rep, dim=d, seed=int(ctx.seed)), found_input=True, unit=u.name,
+                          broken="merge-keeps-marks (frozen leaves stay frozen through merge_chains / merge_transforms)")
+
+
 def unit_unwrap(ctx, specs, uname, what, vmapped=False):
     s = _setup()
     u = ctx.unit(uname, what)
@@ -1277,6 +1324,7 @@ def run(ctx):
     _guard(ctx, "conditioner", unit_conditioner, 8 if q else 80)
     _guard(ctx, "training-oracle", unit_training, 12 if q else 130)
     _guard(ctx, "frozen-submodule", unit_frozen_submodule)
+    _guard(ctx, "merge-keeps-marks", unit_merge_keeps_marks)
     _guard(ctx, "vmapped-where-mixed-rank", unit_vmapped_where, 10 if q else 120)
     note_lambda_returning_wrapper(ctx)
     ctx.assumptions += [
